@@ -128,13 +128,29 @@ func vApplyLog(s *Store, a vLogArgs) []vCmdResult {
 		for _, f := range from {
 			out[len(out)-1].ls = append(out[len(out)-1].ls, f.ServiceName.Name)
 		}
+	case 7: // a config entry write that two stored chains refuse: every replica answers with the same error
+		ens := func(i uint64, e structs.ConfigEntry) error {
+			if err := e.Normalize(); err != nil {
+				return err
+			}
+			if err := e.Validate(); err != nil {
+				return err
+			}
+			return s.EnsureConfigEntry(a.idx+i, e)
+		}
+		for i, n := range []string{"main", "next", "other"} {
+			rec(true, ens(uint64(i), &structs.ServiceConfigEntry{Kind: structs.ServiceDefaults, Name: n, Protocol: "http"}), 0)
+		}
+		rec(true, ens(3, &structs.ServiceSplitterConfigEntry{Kind: structs.ServiceSplitter, Name: "main", Splits: []structs.ServiceSplit{{Weight: 100, Service: "other"}}}), 0)
+		rec(true, ens(4, &structs.ServiceSplitterConfigEntry{Kind: structs.ServiceSplitter, Name: "next", Splits: []structs.ServiceSplit{{Weight: 100, Service: "other"}}}), 0)
+		rec(true, ens(5, &structs.ServiceConfigEntry{Kind: structs.ServiceDefaults, Name: "other", Protocol: "tcp"}), 0)
 	}
 	return out
 }
 
 func VerifC01_SameLogSameState() {
 	netutil.GetAgentBindAddrFunc = netutil.GetMockGetAgentBindAddrFunc("0.0.0.0")
-	a := vLogArgs{kind: verifrt.Choice("log", 7), idx: verifrt.U64("idx"), key: vKey("key", 1), val: verifrt.U8("val"),
+	a := vLogArgs{kind: verifrt.Choice("log", 8), idx: verifrt.U64("idx"), key: vKey("key", 1), val: verifrt.U8("val"),
 		lockDelay: time.Duration(verifrt.Choice("lockdelay", 2)) * 15 * time.Second, rootID: verifrt.StrN("root", 1), cidx: verifrt.U64("cidx")}
 	verifrt.Assume(a.idx >= 1 && a.idx < 1<<62)
 	// names that pass through lower-casing indexers are ASCII (the engine does not model Unicode case mapping)
